@@ -815,9 +815,21 @@ class DependencyTools():
             # TODO #1270 - the is_array_access function might be moved
             is_array = symbol.is_array_access(access_info=var_info)
             if is_array:
-                # Handle arrays
-                par_able = self._array_access_parallelisable(loop_vars,
-                                                             var_info)
+                # Handle arrays. A variable used in a subscript is taken to be
+                # loop invariant, so it must not be modified in the loop.
+                written = {str(sig) for sig in var_accesses.all_signatures
+                           if var_accesses.is_written(sig)}
+                written.difference_update(loop_vars)
+                stale = sorted(set().union(*(
+                    used for access in var_info.all_accesses for used in
+                    access.component_indices.get_subscripts_of(written))))
+                if stale:
+                    self._add_message(
+                        f"The subscripts of '{var_string}' use '{stale[0]}', "
+                        f"which is modified in the loop.",
+                        DTCode.ERROR_DEPENDENCY, [var_string])
+                par_able = not stale and \
+                    self._array_access_parallelisable(loop_vars, var_info)
             else:
                 # Handle scalar variable
                 par_able = self._is_scalar_parallelisable(var_info)
